@@ -10,10 +10,12 @@ Empty == [sx |-> <<>>, sy |-> <<>>]
 
 Put(st, it, targets) == [sx |-> Append(st.sx, it[1]),
                          sy |-> IF targets THEN Append(st.sy, it[2]) ELSE st.sy]
-Shift(st, it, targets) == [sx |-> Append(Tail(st.sx), it[1]),
-                           sy |-> IF targets THEN Append(Tail(st.sy), it[2]) ELSE st.sy]
+\* total on every logged content (a trace may show a storage whose target list is shorter than its instance list)
+TailOrEmpty(s) == IF s = <<>> THEN <<>> ELSE Tail(s)
+Shift(st, it, targets) == [sx |-> Append(TailOrEmpty(st.sx), it[1]),
+                           sy |-> IF targets THEN Append(TailOrEmpty(st.sy), it[2]) ELSE st.sy]
 Replace(st, s, it, targets) == [sx |-> [st.sx EXCEPT ![s] = it[1]],
-                                sy |-> IF targets THEN [st.sy EXCEPT ![s] = it[2]] ELSE st.sy]
+                                sy |-> IF targets /\ s \in DOMAIN st.sy THEN [st.sy EXCEPT ![s] = it[2]] ELSE st.sy]
 
 (* Choices: 0 = keep the reservoir unchanged, s in 1..cap = replace slot s *)
 Choices(kind, cap, st) == IF kind \in {"geometric", "uniform"} /\ Len(st.sx) >= cap THEN 0..cap ELSE {0}
